@@ -13,8 +13,10 @@ RULE = ("An environment of typed nodes (floats with length / time / velocity uni
         "(operands '<number> <unit>' or {?ref}; blank-delimited + - * /; parentheses; exp pow log10 sin cos on "
         "dimensionless arguments, pow(length,2)) evaluated by an independent reference in base units with * / before "
         "+ -, left to right; solve(expr, unit) must agree to 1e-9 for a requested unit of the result's dimension, "
-        "also when the same expression is a node value; adding different dimensions must raise. Logical: comparisons "
-        "of same-dimension operands (equal, equal after conversion, or >= 1e-4 apart), ~, !{?ref}, ~!{?ref}, &&, ||, "
+        "also when the same expression is a node value (dimensionless results also in %, and in a custom [dozen]); adding "
+        "different dimensions, or requesting a unit of another dimension, must raise. Logical: comparisons "
+        "of same-dimension operands (equal, equal after conversion, 1e-8 relative apart, or >= 1e-4 apart; magnitudes "
+        "from 3e-7 to 5e6), ~, !{?ref}, ~!{?ref}, &&, ||, "
         "parentheses, evaluated directly. Templates: text with {{?ref}}, {{?ref}[slice]}, {{?ref}:format} and "
         "single-brace noise, expected via Python's format(). Non-trivial: >=3 operators with mixed priorities and >=2 "
         "different units, or a custom unit, or a negated comparison / definedness test. Distinct = distinct case JSON.")
@@ -30,7 +32,9 @@ _uid = itertools.count()
 
 UNITS = {"angle": ["rad", "deg", "mrad"], "len": ["m", "cm", "km", "mm"], "time": ["s", "min", "ms"], "vel": ["m/s", "km/h", "cm/s"], "area": ["m2", "cm2"],
          "none": [None]}
+REQ_NONE = [None, "%", "%"]      # units a dimensionless RESULT is requested in (operands stay plain numbers)
 CUSTOM = ("clen", "2", "cm")     # $unit clen = 2 cm  -> [clen]
+CUSTOM0 = ("dozen", "12")        # $unit dozen = 12   -> [dozen], a dimensionless custom unit
 NODES = {"a": ("float", 10.0, "m"), "b": ("float", 300.0, "cm"), "t": ("float", 2.0, "min"), "v": ("float", 36.0, "km/h"),
          "n": ("int", 4, None), "x": ("float", 0.5, None), "flag": ("bool", True, None), "off": ("bool", False, None),
          "name": ("str", "Will Smith", None), "id": ("int", 345, None), "w": ("float", 62.3, "kg")}
@@ -42,6 +46,8 @@ def F(u, custom):
         return 1.0
     if u == f"[{CUSTOM[0]}]":
         return float(CUSTOM[1]) * R.factor_of_expression_text(CUSTOM[2])
+    if u == f"[{CUSTOM0[0]}]":
+        return float(CUSTOM0[1])
     return R.factor_of_expression_text(u)
 
 
@@ -121,14 +127,22 @@ def numeric_case(draw):
     custom = draw(st.booleans())
     dim = draw(st.sampled_from(["len", "len", "none", "area", "time", "vel"]))
     e = draw(expr(dim, custom, draw(st.integers(1, 3))))
-    units = list(UNITS[dim]) + ([f"[{CUSTOM[0]}]"] if custom and dim == "len" else [])
-    mism = draw(st.integers(0, 7)) == 0
+    units = (REQ_NONE if dim == "none" else list(UNITS[dim])) + ([f"[{CUSTOM[0]}]"] if custom and dim == "len" else []) + \
+        ([f"[{CUSTOM0[0]}]"] if custom and dim == "none" else [])
+    mism = draw(st.integers(0, 7))
     other = None
-    if mism:
+    unit = draw(st.sampled_from(units))
+    wrong_unit = False
+    if mism == 0:
         d2 = draw(st.sampled_from([d for d in ("len", "time", "vel") if d != dim]))
         other = draw(atom(d2, custom))
-    return {"kind": "numeric", "custom": custom, "dim": dim, "expr": e, "unit": draw(st.sampled_from(units)),
-            "mismatch": other, "as_node": draw(st.booleans())}
+    elif mism == 1:
+        # the requested unit has another dimension than the result: must be refused, not ignored
+        d2 = draw(st.sampled_from([d for d in ("len", "time", "vel", "none") if d != dim]))
+        unit = draw(st.sampled_from(["%"] if d2 == "none" else UNITS[d2]))
+        wrong_unit = True
+    return {"kind": "numeric", "custom": custom, "dim": dim, "expr": e, "unit": unit,
+            "mismatch": other, "wrong_unit": wrong_unit, "as_node": draw(st.booleans())}
 
 
 @st.composite
@@ -138,9 +152,17 @@ def logical_case(draw):
     def comparison():
         dim = draw(st.sampled_from(["len", "len", "time", "none"]))
         left = draw(atom(dim, custom))
-        rel = draw(st.sampled_from(["equal", "equal_conv", "apart", "apart"]))
+        mag = draw(st.sampled_from([None, None, 5e6, 1.2e4, 3e-7, 8e-5]))
+        if mag is not None:
+            # magnitudes far from one: the comparison tolerance is relative
+            left = ["num", mag, draw(st.sampled_from(UNITS[dim]))]
+        rel = draw(st.sampled_from(["equal", "equal_conv", "close", "apart", "apart"]))
         op = draw(st.sampled_from(["==", "!=", "<", ">", "<=", ">="]))
-        return ["cmp", left, op, rel, dim, draw(st.sampled_from(UNITS[dim])), draw(st.sampled_from([0.5, 2.0, 1.0001, 0.9999]))]
+        if rel == "close":
+            op = draw(st.sampled_from(["==", "<=", ">="]))     # 1e-8 relative apart: equal for the tolerant operators
+        small = left[0] == "num" and abs(left[1]) < 1e-2        # numpy's absolute 1e-8 would blur 1e-4 relative steps
+        factor = draw(st.sampled_from([0.5, 2.0] if small else [0.5, 2.0, 1.0001, 0.9999]))
+        return ["cmp", left, op, rel, dim, draw(st.sampled_from(UNITS[dim])), factor]
 
     def term(d):
         k = draw(st.sampled_from(["cmp", "cmp", "cmp", "bool", "defined", "not", "par"] if d > 0 else ["cmp", "bool", "defined"]))
@@ -204,6 +226,7 @@ def env_text(custom):
     L = []
     if custom:
         L.append(f"$unit {CUSTOM[0]} = {CUSTOM[1]} {CUSTOM[2]}")
+        L.append(f"$unit {CUSTOM0[0]} = {CUSTOM0[1]}")
     for k, (t, val, u) in NODES.items():
         if t == "bool":
             lit = "true" if val else "false"
@@ -331,6 +354,21 @@ def check_numeric(case, v):
         return v.discard("domain-error")
     if not math.isfinite(exp_base) or abs(exp_base) > 1e200:
         return v.discard("domain-error")
+    if case.get("wrong_unit"):
+        try:
+            if case["as_node"]:
+                env = make_env(custom, f'result float = ("{text}") {case["unit"]}')
+                r = env.data(Format.TUPLE)["result"]
+            else:
+                env = make_env(custom)
+                with NumericalSolver(env) as s:
+                    r = s.solve(text, case["unit"])
+        except Exception:
+            v.nt(True)
+            v.label("requested_unit_of_other_dimension")
+            return
+        return v.fail("mismatch-accepted", f"expression {text!r} of dimension {case['dim']} evaluated for the unit "
+                                           f"{case['unit']!r} returned {r!r}")
     exp = exp_base / F(case["unit"], custom)
     how = f"expression {text!r} in {case['unit']!r} ({'node value' if case['as_node'] else 'NumericalSolver'})"
     try:
@@ -358,12 +396,14 @@ def check_numeric(case, v):
     s_ = stats(e)
     prios = {("md" if o in "*/" else "as" if o in "+-" else "fn") for o in s_["ops"]}
     v.nt((len(s_["ops"]) >= 3 and len(prios) >= 2 and len(s_["units"]) >= 2) or s_["custom"] or
-         (case["unit"] or "").startswith("["))
+         (case["unit"] or "").startswith("[") or (case["dim"] == "none" and case["unit"]))
     v.label("numeric", "as_node" if case["as_node"] else "solver")
     if s_["custom"] or (case["unit"] or "").startswith("["):
         v.label("custom_unit")
     if custom:
         v.label("env_has_custom_unit")
+    if case["dim"] == "none" and case["unit"]:
+        v.label("dimensionless_result_in_scaled_unit")
 
 
 def render_logic(t, custom):
@@ -389,6 +429,8 @@ def render_logic(t, custom):
         return render(left) + f" {op} " + repr(float(num_)) + (f" {unit2}" if unit2 else "")
     elif rel == "equal_conv":
         rv = lv
+    elif rel == "close":
+        rv = lv * (1 + 1e-8)
     else:
         rv = lv * factor
     right_num = rv / F(unit2, custom)
@@ -412,7 +454,7 @@ def eval_logic(t, custom):
         return (not d) if t[2] else d
     _c, left, op, rel, dim, unit2, factor = t
     lv = evaluate(left, custom)
-    if rel in ("equal", "equal_conv"):
+    if rel in ("equal", "equal_conv", "close"):
         return {"==": True, "!=": False, "<": False, ">": False, "<=": True, ">=": True}[op]
     rv = lv * factor
     return {"==": False, "!=": True, "<": lv < rv, ">": lv > rv, "<=": lv < rv, ">=": lv > rv}[op]
@@ -431,7 +473,8 @@ def fragile(t):
 
 
 def logic_stats(t, acc=None):
-    acc = acc if acc is not None else {"neg": False, "defined": False, "ncmp": 0, "custom": False}
+    acc = acc if acc is not None else {"neg": False, "defined": False, "ncmp": 0, "custom": False, "far_from_one": False,
+                                       "close": False}
     k = t[0]
     if k == "or":
         for ands in t[1]:
@@ -447,6 +490,10 @@ def logic_stats(t, acc=None):
         acc["defined"] = True
     elif k == "cmp":
         acc["ncmp"] += 1
+        if t[1][0] == "num" and not 1e-2 <= abs(t[1][1]) <= 1e3:
+            acc["far_from_one"] = True
+        if t[3] == "close":
+            acc["close"] = True
         if t[1][0] == "num" and (t[1][2] or "").startswith("["):
             acc["custom"] = True
     return acc
@@ -483,6 +530,10 @@ def check_logical(case, v):
         v.label("negated_expression")
     if s_["defined"]:
         v.label("definedness")
+    if s_["far_from_one"]:
+        v.label("magnitude_far_from_one")
+    if s_["close"]:
+        v.label("equal_within_1e-8")
 
 
 def check_template(case, v):
